@@ -276,6 +276,29 @@ def _impure_args(expr):
 # ---------------------------------------------------------------------------------------------------
 # R-DETERM
 # ---------------------------------------------------------------------------------------------------
+def _set_valued(e, fn, depth=0):
+    """set displays / comprehensions, set(...) / frozenset(...), set algebra on dictionary views or sets (`d1.keys() & d2.keys()`,
+    `d2.keys() - d1.keys()`), set methods (union, intersection, difference, ...), and locals bound once to one of these"""
+    if isinstance(e, (ast.Set, ast.SetComp)):
+        return True
+    if isinstance(e, ast.Call) and isinstance(e.func, ast.Name) and e.func.id in ("set", "frozenset"):
+        return True
+    if isinstance(e, ast.Call) and isinstance(e.func, ast.Attribute) and e.func.attr in ("union", "intersection", "difference", "symmetric_difference"):
+        return True
+    if isinstance(e, ast.BinOp) and isinstance(e.op, (ast.BitAnd, ast.BitOr, ast.BitXor, ast.Sub)):
+        def viewish(x):
+            return (isinstance(x, ast.Call) and isinstance(x.func, ast.Attribute) and x.func.attr in ("keys", "items")) or _set_valued(x, fn, depth + 1)
+        if viewish(e.left) or viewish(e.right):
+            return isinstance(e.op, (ast.BitAnd, ast.BitOr, ast.BitXor)) or (viewish(e.left) and isinstance(e.op, ast.Sub))
+    if isinstance(e, ast.Name) and depth < 3:
+        d0 = flow._single_def(fn, e.id)
+        if d0 is not None:
+            return _set_valued(d0, fn, depth + 1)
+    if isinstance(e, ast.Call) and isinstance(e.func, ast.Name) and e.func.id in ("list", "tuple", "enumerate", "reversed", "iter") and e.args:
+        return _set_valued(e.args[0], fn, depth + 1)          # list(set(...)) keeps the set's order
+    return False
+
+
 def r_determ(ctx):
     bad = []
     n = 0
@@ -289,14 +312,15 @@ def r_determ(ctx):
                     bad.append((fn, node, "calls %s" % d))
             if isinstance(node, (ast.For, ast.comprehension)):
                 it = node.iter
-                if isinstance(it, ast.Set) or (isinstance(it, ast.Call) and isinstance(it.func, ast.Name) and it.func.id in ("set", "frozenset")):
-                    bad.append((fn, node if isinstance(node, ast.For) else it, "iterates over a set (%s)" % src(it)[:40]))
+                if _set_valued(it, fn):
+                    bad.append((fn, node if isinstance(node, ast.For) else it, "iterates over a set (%s): the order follows hash values, i.e. memory addresses" % src(it)[:50]))
     keyed = {}
     for fn, node, why in bad:
         keyed.setdefault("%s::%s" % (fn._module.rel, qualname(fn)), []).append((node, why, fn))
     for k, lst in keyed.items():
         ctx.ob("R-DETERM", k, False, "; ".join("line %d %s" % (nd.lineno, w) for nd, w, _ in lst), loc(lst[0][2], lst[0][0]))
-    ctx.ob("R-DETERM", "core package", not bad, "no identity/hash-based ordering, set iteration, randomness or clock in %d functions" % n, "PEPit/")
+    ctx.ob("R-DETERM", "core package", not bad, ("no identity/hash-based ordering, set iteration, randomness or clock in %d functions" % n) if not bad else
+           "%d construct(s) reported above make the solver input depend on hash values / addresses / time" % len(bad), "PEPit/")
     ctx.count("functions scanned", n)
 
 
@@ -392,6 +416,18 @@ def r_fresh(ctx):
                    "`%s` makes self.%s another name of `%s`, and `%s` then grows that container: what is recorded during a solve stays in the model and is "
                    "sent again by the next solve" % (norm_stmt(s)[:70], attr, src(v), norm_stmt(common.stmt_of(later[0]))[:60]), loc(root, s))
     r_objective_fresh(ctx, first_send=first_send)
+    # 2b. the numbering of the leaves belongs to the constructors: the solve root creates its objective leaf but never edits a class-level
+    #     counter / registry itself (removing an entry from a registry of objects whose == is overloaded removes another entry)
+    direct = [w for w in effects.writes_of(repo, root) if w.root.startswith("class:") or w.root.startswith("global:")]
+    for n0 in ast.walk(root):
+        if isinstance(n0, ast.Call) and isinstance(n0.func, ast.Attribute) and n0.func.attr in ("remove", "pop", "clear", "insert", "sort", "reverse", "append", "extend") \
+                and isinstance(n0.func.value, ast.Attribute) and isinstance(n0.func.value.value, ast.Name) \
+                and isinstance(repo.resolve_name(root._module, n0.func.value.value.id), ClassInfo) and not any(w.node is n0 for w in direct):
+            direct.append(type("W", (), {"node": n0, "path": dotted(n0.func.value)})())
+    ctx.ob("R-FRESH", "PEP.%s::leaf numbering untouched" % root.name, not direct,
+           "the solve root edits no class-level counter or registry" if not direct else
+           "`%s` edits the class-level state `%s` during a solve: the indices / registry entries of existing leaves change under the objects that hold them"
+           % (norm_stmt(common.stmt_of(direct[0].node))[:70], direct[0].path), loc(root, direct[0].node if direct else root))
     # 3. class constraints and partition constraints are regenerated before they are sent
     for meth, what in (("set_class_constraints", "class constraints"), ("add_partition_constraints", "partition constraints")):
         calls = [c for c in ast.walk(root) if isinstance(c, ast.Call) and call_name(c) == meth]
@@ -451,9 +487,18 @@ def tracked_lists(root, repo=None):
 # ---------------------------------------------------------------------------------------------------
 # R-ACCUM
 # ---------------------------------------------------------------------------------------------------
-def _emptiness_guard_attr(test):
-    """`self.X == list()` / `not self.X` / `len(self.X) == 0` -> 'X';   `p not in self.X.keys()` / `p not in self.X` -> 'X'"""
+def _emptiness_guard_attr(test, fn=None):
+    """`self.X == list()` / `not self.X` / `len(self.X) == 0` -> 'X';   `p not in self.X.keys()` / `p not in self.X` -> 'X';
+    `v is None` with v bound once to `self.X.get(p)` -> 'X' (membership)"""
     t = test
+    if fn is not None and isinstance(t, ast.Compare) and len(t.ops) == 1 and isinstance(t.ops[0], ast.Is) and isinstance(t.left, ast.Name) \
+            and isinstance(t.comparators[0], ast.Constant) and t.comparators[0].value is None:
+        d0 = flow._single_def(fn, t.left.id)
+        if d0 is None:
+            ds = [s0.value for s0 in flow.stmts_of(fn, ast.Assign) if len(s0.targets) == 1 and dotted(s0.targets[0]) == t.left.id]
+            d0 = ds[0] if ds else None
+        if isinstance(d0, ast.Call) and call_name(d0) == "get" and isinstance(d0.func, ast.Attribute) and (dotted(d0.func.value) or "").startswith("self."):
+            return dotted(d0.func.value).split(".", 1)[1], "membership"
     if isinstance(t, ast.Compare) and len(t.ops) == 1:
         a, b = t.left, t.comparators[0]
         if isinstance(t.ops[0], ast.Eq):
@@ -543,7 +588,7 @@ def r_accum(ctx, prop_roots=None):
                 elif _keyed_before(fn, w):
                     reason = "the accumulated entry is rebound (keyed store) earlier in the same function"
                 else:
-                    g = [_emptiness_guard_attr(t) for t, br, _ in conds if br]
+                    g = [_emptiness_guard_attr(t, fn) for t, br, _ in conds if br]
                     g = [x for x in g if x]
                     if g:
                         reason = "under the idempotence guard on self.%s" % g[0][0]
@@ -561,7 +606,7 @@ def r_accum(ctx, prop_roots=None):
                 st = common.stmt_of(call)
                 if not prot:
                     for t, br, _ in flow.conditions_guarding(st):
-                        ga = _emptiness_guard_attr(t)
+                        ga = _emptiness_guard_attr(t, fn)
                         if ga and br:
                             prot = "%s of self.%s in %s" % (ga[1], ga[0], qualname(fn))
                 la = None
